@@ -324,7 +324,13 @@ def project(events, run_index=0):
                 de = cur_step["dirs_ev"]
                 off = (np.asarray(e["u"]) - de["u"]) / de.get("mesh_true", de["mesh_size"])
                 dd = np.round(off)
-                p["dq"] = bool(np.all(np.abs(off - dd) <= 1e-6 * np.maximum(1.0, np.abs(dd))))
+                tol_off = 1e-6 * np.maximum(1.0, np.abs(dd))
+                if bool(opts.get("force_poll_mesh", False)):
+                    # options['force_poll_mesh']: the poll points are snapped onto the (absolute) search grid, which
+                    # moves them by up to half a search-mesh cell when the incumbent itself is not a grid point
+                    # (e.g. a start nudged onto a hard bound) -- "up to rounding" in C14's statement
+                    tol_off = tol_off + 0.5 * float(de["search_mesh_size"]) / float(de.get("mesh_true", de["mesh_size"]))
+                p["dq"] = bool(np.all(np.abs(off - dd) <= tol_off))
                 p["d"] = [int(v) for v in dd]
             elif kind == "poll":
                 p["dq"] = False
